@@ -138,6 +138,97 @@ def s_prune(F, res):
     res.floor("inner-map inserts", n, 1)
 
 
+def s_present(F, res):
+    """Presence-equivalence of optional collections: wherever the compiler wraps a map in `Some(..)` (mint, withdrawals ..) the
+    map must be known to be non-empty at that point - the wrap sits on the non-empty edge of an `is_empty()` test of that map,
+    or the map is the untouched payload of an Option that was produced under the same rule.  A map that was mutated after it
+    came out of its Option (amounts folded in that may cancel) can be empty: the body then carries a present-but-empty field."""
+    n = 0
+    for p in sorted(F.fns):
+        f = F.fns[p]
+        if f["crate"] != "tx3_cardano" or not p.startswith(CO) or f.get("derived"):
+            continue
+        du = None
+        cfg = None
+        k = 0
+        for bi, si, s in mir.stmts(f):
+            rv = s["rv"]
+            if not (rv["k"] == "agg" and rv.get("variant") == "Some" and rv.get("adt", "").endswith("Option")):
+                continue
+            pl = mir.op_place(rv["ops"][0])
+            if pl is None or pl["p"]:
+                continue
+            ty = f["locals"][pl["l"]]
+            if not re.match(r"^std::collections::(BTreeMap|HashMap)<", ty):
+                continue
+            n += 1
+            k += 1
+            du = du or mir.DefUse(f)
+            cfg = cfg or mir.CFG(f)
+            key = "%s|Some(map) #%d is non-empty" % (p, k)
+            w = where(f, s["line"])
+            # aliases of the wrapped map (moves)
+            roots = {pl["l"]}
+            for _ in range(4):
+                for bj, sj, s2 in mir.stmts(f):
+                    if s2["rv"]["k"] == "use" and not s2["lhs"]["p"]:
+                        src = mir.op_place(s2["rv"]["op"])
+                        if src is not None and not [q for q in src["p"] if q[0] == "d"] and (s2["lhs"]["l"] in roots) and not src["p"]:
+                            roots.add(src["l"])
+            # (a) on the non-empty edge of an is_empty() test of the same map
+            guarded = False
+            for bj, t in mir.calls(f):
+                if not (t.get("callee") or "").endswith("::is_empty"):
+                    continue
+                rpl = [o for o in mir.provenance(f, du, t["args"][0]) if o.kind in ("local", "call", "arg")]
+                recv = mir.op_place(t["args"][0])
+                rroot = None
+                for o in mir.provenance(f, du, t["args"][0]):
+                    rroot = o
+                same = any((o.kind == "local" and o.local in roots) for o in mir.provenance(f, du, t["args"][0])) or any(repr(o) in {repr(x) for r in roots for x in mir.provenance(f, du, {"l": r, "p": []})} for o in mir.provenance(f, du, t["args"][0]))
+                if not same:
+                    continue
+                # the switch on its result
+                tb = t.get("t")
+                if tb is None:
+                    continue
+                sw = f["blocks"][tb]["t"] if f["blocks"][tb]["t"]["k"] == "switch" else None
+                cur = tb
+                hops = 0
+                while sw is None and hops < 3 and f["blocks"][cur]["t"]["k"] == "goto":
+                    cur = f["blocks"][cur]["t"]["t"]
+                    sw = f["blocks"][cur]["t"] if f["blocks"][cur]["t"]["k"] == "switch" else None
+                    hops += 1
+                if sw is None:
+                    continue
+                false_t = dict((v, x) for v, x in sw["targets"]).get(0)
+                if false_t is not None and (false_t == bi or cfg.dominates(false_t, bi)):
+                    guarded = True
+            if guarded:
+                res.add([ok("S-PRESENT", key, w, "wrapped on the non-empty edge of `is_empty()`")])
+                continue
+            # (b) untouched payload of another Option
+            from_some = False
+            for r in roots:
+                for d in du.defs.get(r, []):
+                    if d[0] != "call" and d[3]["rv"]["k"] == "use":
+                        src = mir.op_place(d[3]["rv"]["op"])
+                        if src is not None and any(q[0] == "dc" and q[1] == "Some" or (q[0] == "f" and len(q) > 3 and q[3] == "Some") for q in src["p"]):
+                            from_some = True
+            mutated = []
+            for bj, sj, s2 in mir.stmts(f):
+                if s2["rv"]["k"] == "ref" and s2["rv"].get("mut") and s2["rv"]["pl"]["l"] in roots:
+                    mutated.append(s2["line"])
+            if from_some and not mutated:
+                res.add([ok("S-PRESENT", key, w, "the untouched payload of an Option built under the same rule")])
+            elif from_some:
+                res.add([finding("S-PRESENT", key, where(f, mutated[0]), "the map is handed out as `&mut` (entries can be removed, e.g. amounts that cancel) after it came out of its Option and is then wrapped in `Some(..)` without an emptiness test: the field can be present but empty")])
+            else:
+                res.add([finding("S-PRESENT", key, w, "a map is wrapped in `Some(..)` without an emptiness test: the field can be present but empty")])
+    res.count("Some(map) constructions", n)
+    res.floor("Some(map) constructions", n, 2)
+
+
 def s_sets(F, res):
     for fname, adt_suffix in (("compile_tx_body", "TransactionBody"), ("compile_witness_set", "WitnessSet")):
         f = F.fn(CO + fname)
@@ -236,10 +327,12 @@ def run(ctx):
     res = Result("C10")
     res.rule("S-HASH", "hash, payload and the two hash fields come from the values that are shipped")
     res.rule("S-PRUNE", "no emptied inner map is re-inserted")
+    res.rule("S-PRESENT", "a map is wrapped in Some(..) only where it is known to be non-empty")
     res.rule("S-SETS", "set-like fields go through NonEmptySet::from_vec; network_id is the configured network")
     res.rule("H-ITER", "no order-dependent hash iteration in the compile closure")
     s_hash(F, res)
     s_prune(F, res)
+    s_present(F, res)
     s_sets(F, res)
     h_iter(F, res)
     return res
